@@ -2,6 +2,7 @@ import DaskModel.DriverLib
 import DaskModel.Model.ArrayReduce
 import DaskModel.Model.BlockScan
 import DaskModel.Model.Percentile
+import DaskModel.Model.Masked
 open Dask
 
 namespace ReduceDriver
@@ -159,12 +160,76 @@ def hMergePct : Handler := handler fun args =>
     | none => pure (.list [.sym "bad-order"])
   | _ => none
 
+/-! ### C33 -/
+def toM? : SExp → Option Dask.Masked.M
+  | .sym "m" => some none
+  | .int i => some (some i)
+  | _ => none
+def toMs? (e : SExp) : Option (List Dask.Masked.M) := do (← e.toList?).mapM toM?
+def toMss? (e : SExp) : Option (List (List Dask.Masked.M)) := do (← e.toList?).mapM toMs?
+def ofM : Dask.Masked.M → SExp
+  | none => .sym "m"
+  | some i => .int i
+def ofMs (xs : List Dask.Masked.M) : SExp := .list (xs.map ofM)
+
+/-- `(mareduce op (numblocks…) (split…) keepdims depth (block…))`, `op` = `sum|prod|min|max|count|mean`, masked element = `m` -/
+def hMaReduce : Handler := handler fun args =>
+  match args with
+  | [.sym op, nb, sp, kd, d, blocks] => do
+    let nb ← nb.toNats?
+    let sp ← toOptNats? sp
+    let kd ← kd.toBool?
+    let d ← d.toNat?
+    let blocks ← toMss? blocks
+    let run {β γ : Type} (r : Dask.ArrayReduce.Red Dask.Masked.M β γ) (f : γ → SExp) : SExp :=
+      ofGrid f (r.run nb sp kd d blocks)
+    match op with
+    | "sum" => pure (run (Dask.Masked.redMa (· + ·)) ofM)
+    | "prod" => pure (run (Dask.Masked.redMa (· * ·)) ofM)
+    | "min" => pure (run (Dask.Masked.redMa min) ofM)
+    | "max" => pure (run (Dask.Masked.redMa max) ofM)
+    | "count" => pure (run Dask.Masked.redMaCount .int)
+    | "mean" => pure (run Dask.Masked.redMaMean (fun p => .list [ofM p.1, .int p.2]))
+    | _ => none
+  | _ => none
+
+/-- `(mazip add|mul|sub (block…) (block…))` -/
+def hMaZip : Handler := handler fun args =>
+  match args with
+  | [.sym op, xs, ys] => do
+    let f : Int → Int → Int ← match op with
+      | "add" => some (· + ·) | "mul" => some (· * ·) | "sub" => some (· - ·) | _ => none
+    pure (.list ((Dask.Masked.blockZip f (← toMss? xs) (← toMss? ys)).map ofMs))
+  | _ => none
+
+/-- `(mascan sum|prod (block…))` -/
+def hMaScan : Handler := handler fun args =>
+  match args with
+  | [op, blocks] => do
+    let (f, e) ← scanOp? op
+    pure (.list ((Dask.Masked.maScanBlocks f e (← toMss? blocks)).map ofMs))
+  | _ => none
+
+/-- `(mafilled v (elems…))`, `(mawhere (cond…) (elems…))` -/
+def hMaFilled : Handler := handler fun args =>
+  match args with
+  | [v, xs] => do pure (SExp.ofInts (Dask.Masked.filled (← v.toInt?) (← toMs? xs)))
+  | _ => none
+def hMaWhere : Handler := handler fun args =>
+  match args with
+  | [c, xs] => do
+    let c ← (← c.toList?).mapM SExp.toBool?
+    pure (ofMs (Dask.Masked.maskedWhere c (← toMs? xs)))
+  | _ => none
+
 end ReduceDriver
 
 def table : List (String × Handler) := [
   ("plan", ReduceDriver.hPlan), ("treduce", ReduceDriver.hTreduce), ("argreduce", ReduceDriver.hArg),
   ("seqscan", ReduceDriver.hSeqScan), ("blelloch", ReduceDriver.hBlelloch),
   ("blsched", ReduceDriver.hBlSched), ("schedok", ReduceDriver.hSchedOk),
-  ("mergepct", ReduceDriver.hMergePct)]
+  ("mergepct", ReduceDriver.hMergePct),
+  ("mareduce", ReduceDriver.hMaReduce), ("mazip", ReduceDriver.hMaZip), ("mascan", ReduceDriver.hMaScan),
+  ("mafilled", ReduceDriver.hMaFilled), ("mawhere", ReduceDriver.hMaWhere)]
 
 def main : IO Unit := runDriver table
